@@ -1,0 +1,92 @@
+//go:build verif
+
+// Verification hooks (build tag "verif" only): read-only structural dumps of a
+// route tree for invariant checks at quiescent points. Nothing in the normal
+// build refers to this file.
+
+package route
+
+import "fmt"
+
+// VerifLeaf describes a leaf of a tree node.
+type VerifLeaf struct {
+	Style     int
+	Seg       string
+	Optional  bool
+	Route     string
+	HasHeader bool
+	Binds     []string
+	Capture   int
+	ParentOK  bool
+	ID        string
+}
+
+// VerifNode describes a tree node with its ordered subtrees and leaves.
+type VerifNode struct {
+	Depth    int
+	Style    int
+	Seg      string
+	Binds    []string
+	Capture  int
+	ParentOK bool
+	Children []*VerifNode
+	Leaves   []VerifLeaf
+}
+
+// VerifLeafHasHeader reports whether the leaf carries a header matcher.
+func VerifLeafHasHeader(l Leaf) bool {
+	switch v := l.(type) {
+	case *staticLeaf:
+		return v.headerMatcher != nil
+	case *regexLeaf:
+		return v.headerMatcher != nil
+	case *placeholderLeaf:
+		return v.headerMatcher != nil
+	case *matchAllLeaf:
+		return v.headerMatcher != nil
+	}
+	return false
+}
+
+// VerifLeafID returns an identity token of the leaf.
+func VerifLeafID(l Leaf) string { return fmt.Sprintf("%p", l) }
+
+// VerifDump walks the tree through the package's own getters.
+func VerifDump(t Tree) *VerifNode { return verifDump(t, nil, 0) }
+
+func verifDump(t Tree, parent Tree, depth int) *VerifNode {
+	n := &VerifNode{Depth: depth, Style: int(t.getMatchStyle()), Binds: t.getBinds(), ParentOK: t.getParent() == parent}
+	if s := t.getSegment(); s != nil {
+		n.Seg = s.String()
+	}
+	if ma, ok := t.(*matchAllTree); ok {
+		n.Capture = ma.capture
+	}
+	for _, st := range t.getSubtrees() {
+		n.Children = append(n.Children, verifDump(st, t, depth+1))
+	}
+	for _, l := range t.getLeaves() {
+		vl := VerifLeaf{
+			Style:     int(l.getMatchStyle()),
+			Route:     l.Route(),
+			HasHeader: VerifLeafHasHeader(l),
+			ParentOK:  l.getParent() == t,
+			ID:        VerifLeafID(l),
+		}
+		if s := l.getSegment(); s != nil {
+			vl.Seg = s.String()
+			vl.Optional = s.Optional
+		}
+		switch v := l.(type) {
+		case *regexLeaf:
+			vl.Binds = append([]string(nil), v.binds...)
+		case *placeholderLeaf:
+			vl.Binds = []string{v.bind}
+		case *matchAllLeaf:
+			vl.Binds = []string{v.bind}
+			vl.Capture = v.capture
+		}
+		n.Leaves = append(n.Leaves, vl)
+	}
+	return n
+}
